@@ -11,6 +11,7 @@ import (
 	"crypto/rsa"
 	"crypto/sha1"
 	"crypto/sha256"
+	"crypto/sha512"
 	"crypto/x509"
 	"crypto/x509/pkix"
 	"encoding/hex"
@@ -34,14 +35,18 @@ type Signer struct {
 	Cert *x509.Certificate
 }
 
-func NewSigner() (*Signer, error) {
+func NewSigner() (*Signer, error) { return NewSignerNamed("verif throw-away signer", 0x2728) }
+
+// NewSignerNamed makes a signer with its own common name and serial number (several signers of one
+// CMS must be distinguishable by issuer and serial).
+func NewSignerNamed(cn string, serial int64) (*Signer, error) {
 	key, err := rsa.GenerateKey(rand.Reader, 2048)
 	if err != nil {
 		return nil, err
 	}
 	tmpl := &x509.Certificate{
-		SerialNumber:          big.NewInt(0x2728),
-		Subject:               pkix.Name{CommonName: "verif throw-away signer", Organization: []string{"verif"}},
+		SerialNumber:          big.NewInt(serial),
+		Subject:               pkix.Name{CommonName: cn, Organization: []string{"verif"}},
 		NotBefore:             time.Now().Add(-24 * time.Hour),
 		NotAfter:              time.Now().Add(24 * time.Hour),
 		KeyUsage:              x509.KeyUsageDigitalSignature | x509.KeyUsageCertSign,
@@ -69,7 +74,7 @@ func (s *Signer) InstallTrust(dir string) error {
 	if err := pem.Encode(&buf, &pem.Block{Type: "CERTIFICATE", Bytes: s.Cert.Raw}); err != nil {
 		return err
 	}
-	if err := os.WriteFile(filepath.Join(dir, "verif-signer.pem"), buf.Bytes(), 0o644); err != nil {
+	if err := os.WriteFile(filepath.Join(dir, fmt.Sprintf("verif-signer-%s.pem", s.Cert.SerialNumber.Text(16))), buf.Bytes(), 0o644); err != nil {
 		return err
 	}
 	model.TrustedCertDir = dir
@@ -504,4 +509,32 @@ func (s *Signer) P1Contents(data []byte) ([]byte, error) {
 // CertEntry is the /Cert entry for adbe.x509.rsa_sha1.
 func (s *Signer) CertEntry() string {
 	return "/Cert <" + strings.ToUpper(hex.EncodeToString(s.Cert.Raw)) + ">"
+}
+
+// MultiCMS returns a detached SignedData over data with one SignerInfo per signer; algs[i] is
+// "sha256", "sha384" or "sha512".
+func MultiCMS(signers []*Signer, algs []string, data []byte) ([]byte, error) {
+	sd, err := pkcs7.NewSignedData()
+	if err != nil {
+		return nil, err
+	}
+	for i, s := range signers {
+		var d []byte
+		oid := pkcs7.OIDDigestAlgorithmSHA256
+		switch algs[i] {
+		case "sha384":
+			x := sha512.Sum384(data)
+			d, oid = x[:], pkcs7.OIDDigestAlgorithmSHA384
+		case "sha512":
+			x := sha512.Sum512(data)
+			d, oid = x[:], pkcs7.OIDDigestAlgorithmSHA512
+		default:
+			x := sha256.Sum256(data)
+			d = x[:]
+		}
+		if err := sd.AddSigner(s.Cert, s.Key, d, oid, pkcs7.SignerInfoConfig{}); err != nil {
+			return nil, err
+		}
+	}
+	return sd.Finish()
 }
